@@ -323,6 +323,12 @@ func (gb *gcpBalancer) UpdateClientConnState(ccs balancer.ClientConnState) error
 		gb.initializeConfig(cfg)
 	}
 
+	// Replacement SubConns of refreshes in progress will join the pool.
+	for sc := range gb.refreshingScRefs {
+		sc.UpdateAddresses(addrs)
+		sc.Connect()
+	}
+
 	if len(gb.scRefs) == 0 {
 		// The mutex is already held: newSubConn() would lock it again.
 		gb.addSubConn()
@@ -333,11 +339,6 @@ func (gb *gcpBalancer) UpdateClientConnState(ccs balancer.ClientConnState) error
 		// TODO(weiranf): update streams count when new addrs resolved?
 		scRef.subConn.UpdateAddresses(addrs)
 		scRef.subConn.Connect()
-	}
-	// Replacement SubConns of refreshes in progress will join the pool.
-	for sc := range gb.refreshingScRefs {
-		sc.UpdateAddresses(addrs)
-		sc.Connect()
 	}
 
 	return nil
